@@ -114,6 +114,8 @@ ENTRIES = {
     "proximal_point_operators": E(M, "wc_proximal_point", "tight", prod(alpha=[2.1, 1.0], n=[2, 3, 6])),
     "optimal_strongly_monotone_proximal_point": E(M, "wc_optimal_strongly_monotone_proximal_point", "tight", prod(n=[2, 3, 5], mu=[0.23, 0.05])),
     "douglas_rachford_splitting_operators": E(M, "wc_douglas_rachford_splitting", "tight", [dict(L=1.0, mu=0.1, alpha=a, theta=t) for a in (1.3, 1.0) for t in (0.9, 1.0)]),
+    "optimistic_gradient": E(M, "wc_optimistic_gradient", "none", [dict(n=n, gamma=g / L, L=L) for L in (1.0, 2.0) for g in (0.25,) for n in (1, 3, 5)]),
+    "past_extragradient": E(M, "wc_past_extragradient", "none", [dict(n=n, gamma=g / L, L=L) for L in (1.0, 2.0) for g in (0.25,) for n in (1, 3, 5)]),
     # ---- fixed point
     "halpern_iteration": E(FP, "wc_halpern_iteration", "tight", prod(n=[1, 3, 10])),
     "krasnoselskii_mann_constant_step_sizes": E(FP, "wc_krasnoselskii_mann_constant_step_sizes", "tight", prod(n=[3, 10], gamma=[0.75, 0.6])),
